@@ -431,6 +431,14 @@ func runC01() {
 			process(ty.Name, canonical, g.doc(&ty, 3, canonical, true))
 		}
 	}
+	// sweep 0: a natural-language property holding an object with a nested @context that is no string: no language map for the
+	// decoder (kept as it is), a language map once Serialize has deleted the nested @context (finding F24)
+	for i, ctxv := range []interface{}{float64(1), []interface{}{"https://www.w3.org/ns/activitystreams"}, map[string]interface{}{"x": "https://example.com/ns#"}} {
+		for _, pn := range []string{"name", "summary", "content"} {
+			process("Note", false, map[string]interface{}{"@context": allContexts, "type": "Note", "id": fmt.Sprintf("https://example.com/ctxmap/%d", i),
+				pn: map[string]interface{}{"@context": ctxv, "en": "x"}})
+		}
+	}
 	// sweep 1: every sample of every literal kind on up to three properties whose range has that kind (one document each)
 	holder := func(pn string) *tblType { // a type that has the property
 		for i := range t.Types {
